@@ -118,7 +118,7 @@ def template_differential(ctx, templates, kind, only_types=None, lit_sample=None
     """exported templates: real back end on EVM  vs  Coq evaluator  vs  Coq arith_spec, on the boundary grid.
     Doubles as the Search for a broken tie/proof (evaluates whatever the generators emit NOW)."""
     rnd = ctx.rng(kind + "grid")
-    size = 11 if ctx.tier == "quick" else 14
+    size = 7 if ctx.tier == "quick" else 14
     idx = []
     for j, (op, ty, sh, lit, n) in enumerate(templates):
         if only_types is not None and ty not in only_types:
@@ -248,7 +248,7 @@ def glue_differential(ctx, tys, cfgs, size, with_lits=True):
     for cfg in cfgs:
         chain = Chain(cfg.evm)
         for gi, ty in enumerate(tys):
-            src, fns = probe_source(ty, with_lits)
+            src, fns = probe_source(ty, with_lits and (ctx.tier != "quick" or ty in tys[:6]))
             try:
                 out = compile_src(src, cfg, formats=("bytecode", "method_identifiers"))
             except Exception as e:  # the probe is plain arithmetic: every configuration must compile it
@@ -302,8 +302,8 @@ def choose_types(ctx, all_tys):
     if ctx.tier == "thorough":
         return all_tys
     rnd = ctx.rng("types")
-    must = [(32, False, False), (32, True, False), (16, True, False), (16, False, False), (17, True, False),
-            (17, False, False), (1, True, False), (1, False, False), (21, True, True), (31, True, False)]
+    must = [(32, True, False), (32, False, False), (17, True, False), (16, True, False), (1, True, False),
+            (21, True, True), (16, False, False), (17, False, False), (1, False, False), (31, True, False)]
     rest = [t for t in all_tys if t not in must]
     return must + rnd.sample(rest, 4)
 
@@ -362,8 +362,8 @@ def run(ctx):
         # quick tier: a seeded subset of types / literal shapes, unless a proof or tie is broken
         # (then Search over the whole family)
         if b["ok"]:
-            only = set(tys) if ctx.tier == "quick" else None
-            frac = 0.25 if ctx.tier == "quick" else 0.5
+            only = set(tys[:6] + tys[-2:]) if ctx.tier == "quick" else None
+            frac = 0.2 if ctx.tier == "quick" else 0.5
         else:
             only, frac = None, None
         n, failing, bad_model = template_differential(ctx, templ, kind, only, frac)
